@@ -9,8 +9,8 @@
 (*         in ascending signed key order)                                  *)
 (*   par, rnk   the union-find forest (a_blocks): findNode halves paths,   *)
 (*         unionNodes links the lower-ranked (on a tie the smaller id)     *)
-(*         root below the other and stores the *new parent's* rank in the  *)
-(*         child (updateRoot(x, xrank, y, yrank)), then bumps the parent   *)
+(*         root below the other (the child keeps its own rank:             *)
+(*         updateRoot(x, xrank, y, xrank)), then bumps the parent's rank   *)
 (*         on a tie                                                        *)
 (*   stale      statesMapStale                                             *)
 (*   cache      equivalencePartition: representative -> members in dense   *)
@@ -49,7 +49,7 @@ UnionD(R, x0, y0) ==
                 x == IF swap THEN ry ELSE rx
                 y == IF swap THEN rx ELSE ry
                 xr == R2.rnk[x]  yr == R2.rnk[y]
-                R3 == [R2 EXCEPT !.par[x] = y, !.rnk[x] = yr]
+                R3 == [R2 EXCEPT !.par[x] = y]                    \* updateRoot(x, xrank, y, xrank): the child keeps its rank
             IN IF xr = yr THEN [R3 EXCEPT !.rnk[y] = yr + 1] ELSE R3
 \* sds.unionNodes(a, b) on sparse values
 UnionS(R, a, b) ==
